@@ -120,6 +120,8 @@ def py_dtype(v) -> str:
 
 import operator as _operator  # noqa: E402
 
+_PURE_TEXT_FUNCTIONS = {'textwrap.fill', 'textwrap.wrap', 'textwrap.dedent', 'textwrap.indent', 'textwrap.shorten'}
+
 # numpy.finfo of the two IEEE formats (python floats: the interpreter lifts them like literals)
 _FINFO = {
     'float32': {'eps': 2.0 ** -23, 'max': 3.4028234663852886e38, 'min': -3.4028234663852886e38, 'tiny': 1.1754943508222875e-38,
@@ -705,7 +707,8 @@ class Model:
             a = _bind(['deep'], args, kwargs, {'deep': True})
             r = self.new(interp, v.term, v.unit, v.dtype, v.taint, v.why)
             r.kind = v.kind
-            r.hist = v.hist
+            r.hist, r.mag = v.hist, v.mag
+            r.members.update({k: x for k, x in v.members.items() if k in ('value', 'variance', 'concrete') and isinstance(x, int | float | bool | str | type(None))})
             if a['deep'] is False:
                 r.view_of = v
             return r
@@ -771,6 +774,9 @@ class Model:
             return Opaque('uuid')
         if path in ('copy.deepcopy', 'copy.copy'):
             return self._deepcopy(interp, args[0], deep=path.endswith('deepcopy'))
+        if path in _PURE_TEXT_FUNCTIONS and all(isinstance(a, str | int | bool) for a in list(args) + list(kwargs.values())):
+            import textwrap
+            return getattr(textwrap, name)(*args, **kwargs)  # pure functions of concrete text: evaluated as they are
         if path == 'functools.partial':
             return _Partial(args[0], args[1:], kwargs)
         if path == 'functools.reduce' and len(args) >= 2 and not isinstance(args[1], Opaque):
@@ -836,6 +842,9 @@ class Model:
     def _deepcopy(self, interp, v, deep=True):
         if isinstance(v, SVar):
             r = self.new(interp, v.term, v.unit, v.dtype, v.taint, v.why)
+            r.kind, r.hist, r.mag = v.kind, v.hist, v.mag
+            # a copy holds the same numbers: literal value / variance of a scalar built from constants
+            r.members.update({k: x for k, x in v.members.items() if k in ('value', 'variance', 'concrete') and isinstance(x, int | float | bool | str | type(None))})
             if not deep:
                 r.view_of = v
             return r
